@@ -22,6 +22,12 @@ use vh::*;
 const HEADER: &str = "From SV Require Import Lib.Base Model.Postcard Gen.Schemas Model.Wire.\nLocal Open Scope N_scope.";
 const PREFIX_CAP: usize = 3072;
 
+/// Coq list of bytes, written in chunks: the list notation parses super-linearly in its length
+fn cb(b: &[u8]) -> String {
+    if b.len() <= 256 { return coq_bytes(b); }
+    format!("({})", b.chunks(256).map(coq_bytes).collect::<Vec<_>>().join(" ++ "))
+}
+
 // ------------------------------------------------------------------ blobs
 #[derive(Clone, Debug)]
 struct Blob { prefix: Vec<u8>, fill: u8, n: usize }
@@ -42,7 +48,7 @@ impl Blob {
     fn bytes(&self) -> Vec<u8> { let mut v = self.prefix.clone(); v.extend(std::iter::repeat(self.fill).take(self.n)); v }
     fn len(&self) -> usize { self.prefix.len() + self.n }
     fn ok_for_coq(&self) -> bool { self.prefix.len() <= PREFIX_CAP }
-    fn coq(&self) -> String { format!("(mkBlob {} {} {})", coq_bytes(&self.prefix), self.fill, self.n) }
+    fn coq(&self) -> String { format!("(mkBlob {} {} {})", cb(&self.prefix), self.fill, self.n) }
     fn json(&self) -> serde_json::Value { json!({"prefix_hex": hex::encode(&self.prefix), "fill": self.fill, "fill_len": self.n}) }
 }
 
@@ -63,7 +69,7 @@ fn put_str(out: &mut Vec<u8>, s: &[u8]) { put_varint(out, s.len() as u128); out.
 // ------------------------------------------------------------------ random values of the public message types
 const STRS: &[&str] = &["", "a", "/dht/1.0.0", "/rr/echo", "/rr/", "peer-1", "aaaaaaa\u{20ac}", "\u{10348}\u{e9}x", "0123456789abcdef0123456789abcdef0123456789abcdef0123456789abcdef", "\u{7ff}\u{800}\u{ffff}\u{10000}\u{10ffff}\u{d7ff}\u{e000}"];
 fn rstr(r: &mut Rng) -> String {
-    if r.chance(2, 3) { r.pick(STRS).to_string() } else { hex::encode(r.bytes(r.below(12) as usize)) }
+    if r.chance(2, 3) { r.pick(STRS).to_string() } else { let n = r.below(12) as usize; hex::encode(r.bytes(n)) }
 }
 fn rvec(r: &mut Rng, max: u64) -> Vec<u8> { let n = r.below(max + 1) as usize; r.bytes(n) }
 fn rkey(r: &mut Rng) -> [u8; 32] { let mut k = [0u8; 32]; k[31] = r.below(6) as u8; if r.chance(1, 4) { k.copy_from_slice(&r.bytes(32)); } k }
@@ -193,7 +199,7 @@ fn mutate(r: &mut Rng, base: &[u8]) -> (Vec<u8>, &'static str) {
 // ------------------------------------------------------------------ observations
 type DecObs = Option<(Vec<u8>, usize)>;
 fn coq_decobs(o: &DecObs) -> String {
-    match o { None => "None".into(), Some((b, n)) => format!("(Some ({}, {}))", coq_bytes(b), n) }
+    match o { None => "None".into(), Some((b, n)) => format!("(Some ({}, {}))", cb(b), n) }
 }
 fn take<T: for<'a> Deserialize<'a> + Serialize>(b: &[u8]) -> DecObs {
     let (v, rest) = postcard::take_from_bytes::<T>(b).ok()?;
@@ -248,7 +254,7 @@ fn coq_dres(d: &DRes) -> String {
     match d {
         DRes::RejSize => "DRejSize".into(), DRes::RejDecode => "DRejDecode".into(), DRes::RejValue => "DRejValue".into(), DRes::RejStore => "DRejStore".into(),
         DRes::NoReply => "DNoReply".into(),
-        DRes::Reply(v, val) => format!("(DReply {} {})", v, coq_opt(val.as_ref().map(|b| coq_bytes(b)))),
+        DRes::Reply(v, val) => format!("(DReply {} {})", v, coq_opt(val.as_ref().map(|b| cb(b)))),
         DRes::Other(_) => "(DReply 999 None)".into(),
     }
 }
@@ -301,7 +307,7 @@ fn dht_frame(r: &mut Rng, keys: &mut Vec<[u8; 32]>) -> (Blob, &'static str) {
         }
         5 | 6 => { m.payload = DhtNetworkOperation::Get { key: known(r, keys) }; (Blob::of(enc(&m)), "dht:get") }
         7 | 8 => { m.payload = DhtNetworkOperation::FindValue { key: known(r, keys) }; (Blob::of(enc(&m)), "dht:find_value") }
-        9 => { m.payload = rop(r, 2 + 2 * r.below(3)); (Blob::of(enc(&m)), "dht:find_node/ping/leave") }
+        9 => { let k = 2 + 2 * r.below(3); m.payload = rop(r, k); (Blob::of(enc(&m)), "dht:find_node/ping/leave") }
         10 => { m.payload = DhtNetworkOperation::Join; (Blob::of(enc(&m)), "dht:join") }
         11 => { let k = r.next(); m.message_type = rmsgtype(1 + r.below(3)); m.result = Some(rresult(r, k)); (Blob::of(enc(&m)), "dht:non-request") }
         12 => { // boundary of the 64 KiB gate: a complete valid message padded with ignored trailing zeros
@@ -318,7 +324,7 @@ fn dht_frame(r: &mut Rng, keys: &mut Vec<[u8; 32]>) -> (Blob, &'static str) {
 #[derive(Clone, Debug, PartialEq)]
 enum CRes { StoreAck, TooLarge, Retrieve(Option<Vec<u8>>), FindNode(usize), FindValue(Option<Vec<u8>>, usize), Pong, Unsupported, Undecodable, Other(String) }
 fn coq_cres(c: &CRes) -> String {
-    let ob = |v: &Option<Vec<u8>>| coq_opt(v.as_ref().map(|b| coq_bytes(b)));
+    let ob = |v: &Option<Vec<u8>>| coq_opt(v.as_ref().map(|b| cb(b)));
     match c {
         CRes::StoreAck => "CStoreAck".into(), CRes::TooLarge => "CTooLarge".into(), CRes::Pong => "CPong".into(),
         CRes::Unsupported => "CUnsupported".into(), CRes::Undecodable => "CUndecodable".into(),
@@ -350,10 +356,10 @@ fn core_frame(r: &mut Rng, keys: &mut Vec<[u8; 32]>) -> (Blob, &'static str) {
         4 | 5 => { let k = known(r, keys); (wrap(r, DhtMessage::Retrieve { key: k, consistency: ConsistencyLevel::One }), "core:retrieve") }
         6..=8 => {
             let count = *r.pick(&[0usize, 1, 8, 19, 20, 21, 22, 40, 41, 1000, usize::MAX / 2, usize::MAX / 2 + 1, usize::MAX]);
-            (wrap(r, DhtMessage::FindNode { target: DhtKey::from_bytes(rkey(r)), count }), "core:find_node")
+            let target = DhtKey::from_bytes(rkey(r)); (wrap(r, DhtMessage::FindNode { target, count }), "core:find_node")
         }
         9 => { let k = known(r, keys); (wrap(r, DhtMessage::FindValue { key: k }), "core:find_value") }
-        10 => { let k = r.next(); (wrap(r, rcoremsg(r, k)), "core:any") }
+        10 => { let k = r.next(); let m = rcoremsg(r, k); (wrap(r, m), "core:any") }
         11 | 12 => { let b = Root::CoreReq.valid(r); let (x, _) = mutate(r, &b); (Blob::of(x), "core:mutated") }
         _ => { let n = r.below(40) as usize; (Blob::of(r.bytes(n)), "core:random") }
     }
@@ -371,10 +377,82 @@ async fn new_core(avail: usize) -> Option<DhtCoreEngine> {
     Some(e)
 }
 
+// ------------------------------------------------------------------ F05a: hostile NodesFound reply during a real lookup
+/// Node A (real DhtNetworkManager) looks a key up; its only peer B is a bare transport driven by
+/// this harness over loopback QUIC (the way the repository's own integration tests connect
+/// nodes) and answers the FIND_VALUE with a NodesFound reply naming peers whose ids have a
+/// multi-byte character across byte 8.  Returns Ok(description) if the lookup future returned,
+/// Err(description) if it panicked or the scenario could not be set up ("setup:" prefix).
+async fn f05a_live(tag: u64) -> Result<String, String> {
+    let mk = |peer_id: String| async move {
+        let node_config = NodeConfig::builder().peer_id(peer_id.clone()).listen_port(0).ipv6(false).build().map_err(|e| format!("setup: {e}"))?;
+        let transport = Arc::new(TransportHandle::new(TransportConfig {
+            peer_id: peer_id.clone(), listen_addr: node_config.listen_addr, enable_ipv6: node_config.enable_ipv6,
+            connection_timeout: Duration::from_secs(3), stale_peer_threshold: node_config.stale_peer_threshold,
+            max_connections: node_config.max_connections, production_config: node_config.production_config.clone(),
+            event_channel_capacity: saorsa_core::DEFAULT_EVENT_CHANNEL_CAPACITY }).await.map_err(|e| format!("setup: {e}"))?);
+        transport.start_network_listeners().await.map_err(|e| format!("setup: {e}"))?;
+        Ok::<_, String>((transport, node_config))
+    };
+    let (ta, cfg_a) = mk(format!("c05_f05a_a_{tag}")).await?;
+    let (tb, _) = mk(format!("c05_f05a_b_{tag}")).await?;
+    let config = DhtNetworkConfig { local_peer_id: format!("c05_f05a_a_{tag}"), dht_config: DHTConfig::default(), node_config: cfg_a,
+        request_timeout: Duration::from_secs(4), max_concurrent_operations: 10, replication_factor: 8, enable_security: false };
+    let a = Arc::new(DhtNetworkManager::new(ta.clone(), None, config).await.map_err(|e| format!("setup: {e}"))?);
+    a.start().await.map_err(|e| format!("setup: {e}"))?;
+    // hostile peer: answer every DHT request with a NodesFound reply carrying non-ASCII peer ids
+    let mut ev = tb.subscribe_events();
+    let tb2 = tb.clone();
+    let answered = Arc::new(std::sync::atomic::AtomicUsize::new(0));
+    let answered2 = answered.clone();
+    let responder = tokio::spawn(async move {
+        while let Ok(e) = ev.recv().await {
+            if let P2PEvent::Message { topic, source, data } = e {
+                if topic != "/dht/1.0.0" { continue; }
+                let Ok(req) = postcard::from_bytes::<DhtNetworkMessage>(&data) else { continue };
+                if !matches!(req.message_type, DhtMessageType::Request) { continue; }
+                let key = match &req.payload { DhtNetworkOperation::FindValue { key } | DhtNetworkOperation::FindNode { key } | DhtNetworkOperation::Get { key } => *key, _ => [0u8; 32] };
+                let nodes = ["aaaaaaa\u{20ac}", "\u{20ac}\u{20ac}\u{20ac}", "aaaaaa\u{e9}\u{e9}", "1234567\u{10348}"].iter().map(|id| DHTNode {
+                    peer_id: id.to_string(), address: "127.0.0.1:1".into(), distance: None, reliability: 1.0, cached_dht_key: None }).collect();
+                let reply = DhtNetworkMessage { message_id: req.message_id.clone(), source: "hostile".into(), target: Some(source.clone()),
+                    message_type: DhtMessageType::Response, payload: req.payload.clone(), result: Some(DhtNetworkResult::NodesFound { key, nodes }),
+                    timestamp: now_secs(), ttl: 0, hop_count: 0 };
+                let _ = tb2.send_message(&source, "/dht/1.0.0", enc(&reply)).await;
+                answered2.fetch_add(1, std::sync::atomic::Ordering::SeqCst);
+            }
+        }
+    });
+    let addr_b = tb.local_addr().ok_or("setup: hostile transport has no local address")?;
+    let addr_b = addr_b.replace("0.0.0.0", "127.0.0.1");
+    let connected = tokio::time::timeout(Duration::from_secs(10), a.connect_to_peer(&addr_b)).await;
+    match connected { Ok(Ok(_)) => {}, Ok(Err(e)) => return Err(format!("setup: connect failed: {e}")), Err(_) => return Err("setup: connect timed out".into()) }
+    tokio::time::sleep(Duration::from_millis(300)).await;
+    let a2 = a.clone();
+    let key = [0x5au8; 32];
+    let lookup = tokio::spawn(async move { a2.get(&key).await.map(|r| format!("{:?}", std::mem::discriminant(&r))).map_err(|e| e.to_string()) });
+    let out = match tokio::time::timeout(Duration::from_secs(60), lookup).await {
+        Err(_) => Err("lookup did not finish within 60 s".to_string()),
+        Ok(Err(join)) if join.is_panic() => {
+            let p = join.into_panic();
+            let msg = p.downcast_ref::<String>().cloned().or_else(|| p.downcast_ref::<&str>().map(|s| s.to_string())).unwrap_or_default();
+            Err(format!("lookup task panicked: {msg}"))
+        }
+        Ok(Err(join)) => Err(format!("lookup task failed: {join}")),
+        Ok(Ok(r)) => Ok(format!("lookup returned {:?}; hostile replies sent: {}", r, answered.load(std::sync::atomic::Ordering::SeqCst))),
+    };
+    responder.abort();
+    let n = answered.load(std::sync::atomic::Ordering::SeqCst);
+    let _ = tokio::time::timeout(Duration::from_secs(5), a.stop()).await;
+    let _ = tokio::time::timeout(Duration::from_secs(5), ta.stop()).await;
+    let _ = tokio::time::timeout(Duration::from_secs(5), tb.stop()).await;
+    if n == 0 && out.is_ok() { return Err("setup: the hostile peer was never queried".into()); }
+    out
+}
+
 #[derive(Clone, Debug, PartialEq)]
 enum RRes { TooLarge(usize), DecodeErr, Ok(Vec<u8>), Other(String) }
 fn coq_rres(r: &RRes) -> String {
-    match r { RRes::TooLarge(n) => format!("(RTooLarge {})", n), RRes::DecodeErr => "RDecodeErr".into(), RRes::Ok(b) => format!("(ROk {})", coq_bytes(b)), RRes::Other(_) => "(RTooLarge 0)".into() }
+    match r { RRes::TooLarge(n) => format!("(RTooLarge {})", n), RRes::DecodeErr => "RDecodeErr".into(), RRes::Ok(b) => format!("(ROk {})", cb(b)), RRes::Other(_) => "(RTooLarge 0)".into() }
 }
 
 fn main() {
@@ -385,13 +463,13 @@ fn main() {
     let mut rng = Rng::new(args.seed);
     let mut sum = Summary::default();
     sum.rule = "per decoder: valid messages of every kind from the real types, byte-level mutants of them at every position class (edge bytes on tags/length prefixes/bools, +-1, continuation-bit flips, truncation, overlong varints, maximal varints, insert/delete/append), random bytes (mostly short, up to 128 KiB), hand-made Duration/SystemTime overflow edges; parse_protocol_message with timestamps at the window edges +-1 s and claimed senders different from the connection id; DHT manager and core engine request sequences with values 511/512/513 bytes, message sizes 65535/65536/65537, find-node counts 19/20/21/usize::MAX; records of 511/512/513 bytes. Non-trivial = accepted by the real decoder or rejected after the first 2 bytes; distinct = different input bytes".into();
-    let mut w = CaseWriter::new(&args.out, "cases_c05", HEADER, "wcase", "check_case", "prop_case", 60);
+    let mut w = CaseWriter::new(&args.out, "cases_c05", HEADER, "wcase", "check_case", "prop_case", 150);
     let scale = if args.thorough() { 12 } else { 1 };
     let mut id = 0u64;
     let mut seen = std::collections::HashSet::new();
 
     // ---------------------------------------------------------------- 1. differential decoding, every root type
-    let n_dec = 1500 * scale;
+    let n_dec = 1320 * scale;
     for i in 0..n_dec {
         let root = ROOTS[(i % ROOTS.len() as u64) as usize];
         let (blob, kind): (Blob, &str) = match rng.below(20) {
@@ -399,7 +477,7 @@ fn main() {
             4..=13 => { let b = root.valid(&mut rng); let (m, k) = mutate(&mut rng, &b); (Blob::of(m), k) }
             14 => { let b = root.valid(&mut rng); let (m, _) = mutate(&mut rng, &b); let (m2, _) = mutate(&mut rng, &m); (Blob::of(m2), "mut:double") }
             15 | 16 => { let n = rng.below(24) as usize; (Blob::of(rng.bytes(n)), "random:short") }
-            17 => { let n = rng.range(24, 2000) as usize; (Blob::of(rng.bytes(n)), "random:medium") }
+            17 => { let n = rng.range(24, 600) as usize; (Blob::of(rng.bytes(n)), "random:medium") }
             18 => { // long: random head, constant tail, up to 128 KiB
                 let n = *rng.pick(&[4096usize, 65536, 65537, 131072]); let h = rng.below(64) as usize;
                 (Blob { prefix: rng.bytes(h), fill: *rng.pick(EDGE), n: n - h }, "random:long") }
@@ -458,7 +536,7 @@ fn main() {
             None => "None".to_string(),
             Some(P2PEvent::Message { topic, source, data }) => {
                 if source != src { sum.violation(id, "surfaced source differs from the connection's peer id", &[], json!({"connection": src, "surfaced": source, "claimed_from": from})); }
-                format!("(Some ({}, {}, {}))", coq_bytes(topic.as_bytes()), coq_bytes(source.as_bytes()), coq_bytes(&data))
+                format!("(Some ({}, {}, {}))", cb(topic.as_bytes()), cb(source.as_bytes()), cb(&data))
             }
             Some(other) => { sum.violation(id, "parse_protocol_message returned a non-message event", &[], json!(format!("{other:?}"))); "None".to_string() }
         };
@@ -476,7 +554,7 @@ fn main() {
         let blob = match rng.below(4) { 0 | 1 => Blob::of(valid), 2 => { let (m, _) = mutate(&mut rng, &valid); Blob::of(m) } _ => { let n = rng.below(12) as usize; Blob::of(rng.bytes(n)) } };
         let bytes = blob.bytes();
         let Some(o) = guarded(&mut sum, id, "parse_request_envelope", &blob, || TransportHandle::parse_request_envelope(&bytes)) else { id += 1; continue };
-        let obs = match &o { None => "None".to_string(), Some((i, r, p)) => format!("(Some ({}, {}, {}))", coq_bytes(i.as_bytes()), coq_bool(*r), coq_bytes(p)) };
+        let obs = match &o { None => "None".to_string(), Some((i, r, p)) => format!("(Some ({}, {}, {}))", cb(i.as_bytes()), coq_bool(*r), cb(p)) };
         w.push(id, format!("KEnv {} {}", blob.coq(), obs));
         sum.case(id, json!({"kind": "parse_request_envelope", "input": blob.json(), "accepted": o.is_some()}));
         sum.count(if o.is_some() { "env:accepted" } else { "env:rejected" });
@@ -573,6 +651,22 @@ fn main() {
         sum.count(&format!("rec:len:{}", match bytes.len() { 511 => "511", 512 => "512", 513 => "513", _ => "other" }));
         if seen.insert(bytes) { sum.distinct_nontrivial += 1; }
         sum.evaluations += 1; id += 1;
+    }
+
+    // ---------------------------------------------------------------- 7. F05a: a hostile NodesFound reply met by a real lookup (TRACE subscriber installed)
+    for round in 0..(if args.thorough() { 3 } else { 1 }) {
+        let r = rt.block_on(async { tokio::time::timeout(Duration::from_secs(120), f05a_live(args.seed * 1000 + round)).await });
+        match r {
+            Ok(Ok(d)) => { sum.count("f05a:lookup-survived-hostile-reply"); sum.notes.push(format!("f05a live scenario: {d}")); }
+            Ok(Err(d)) if d.starts_with("setup:") => { sum.count("f05a:not-exercised"); sum.notes.push(format!("f05a live scenario not exercised: {d}")); }
+            Ok(Err(d)) => {
+                sum.case(id, json!({"kind": "live lookup against a hostile peer", "reply": "NodesFound with peer ids aaaaaaa+U20AC / U20AC U20AC U20AC / aaaaaa+U00E9 U00E9 / 1234567+U10348", "outcome": d}));
+                sum.violation(id, "iterative lookup does not return normally when a reply names a peer id with a multi-byte character across byte 8 (F05a)", &[], json!({"outcome": d}));
+                id += 1;
+            }
+            Err(_) => { sum.count("f05a:not-exercised"); sum.notes.push("f05a live scenario timed out as a whole".into()); }
+        }
+        sum.evaluations += 1;
     }
 
     w.flush();
